@@ -26,7 +26,7 @@ func init() {
 		NumCases: func(tier string) int { return pick(tier, 160, 6000) + pick(tier, 800, 30000) },
 		Run:      runC06,
 		Floor: func(tier string, st map[string]int64) string {
-			for _, k := range []string{"c06.visits", "c06.early-stops", "c06.nil-target", "c06.empty-collection-cases", "c06.cmp=rev", "c06.cmp=lenlex", "c06.state=reopened", "c06.state=evicted", "c06.state=mixed", "c06.state=dirty", "c06.state=snapshot-persisted-later", "c06.state=offsets-reused-after-revert", "visit.true-depths-checked", "visit.depths-checked", "c06.iterator-visits", "c06.concurrent-executions", "c06.recycling-allocator-cases"} {
+			for _, k := range []string{"c06.visits", "c06.early-stops", "c06.nil-target", "c06.empty-collection-cases", "c06.cmp=rev", "c06.cmp=lenlex", "c06.state=reopened", "c06.state=evicted", "c06.state=mixed", "c06.state=dirty", "c06.state=snapshot-persisted-later", "c06.state=offsets-reused-after-revert", "visit.true-depths-checked", "visit.depths-checked", "c06.iterator-visits", "c06.concurrent-executions", "c06.recycling-allocator-cases", "c06.item-codec-cases"} {
 				if st[k] == 0 {
 					return "no " + k + " observed"
 				}
@@ -57,6 +57,11 @@ func runC06(ctx *Ctx, idx int) Result {
 	case 5:
 		cfg.RefMon, cfg.RefOnly, cfg.Recycle = true, true, true // reference callbacks only
 		ctx.Stats["c06.recycling-allocator-cases"]++
+	case 1:
+		// an item codec (BeforeItemWrite / AfterItemRead) that encodes the key and adds a checksum trailer to the
+		// value: what a visit delivers, and what it compares with its target, is the decoded item
+		cfg.CB = driver.CBSwap
+		ctx.Stats["c06.item-codec-cases"]++
 	}
 	name := "r"
 	e := driver.NewEnvCmps(fmt.Sprintf("c06-%d", idx), cfg, map[string]model.Cmp{name: cmp})
